@@ -94,7 +94,7 @@ pub fn mix_table(mix: &str) -> Vec<(&'static str, u32)> {
         "basic" => vec![
             ("insert", 30), ("remove", 28), ("get", 6), ("get_q", 4), ("contains", 4), ("get_mut", 4),
             ("get_kv_mut", 2), ("remove_entry", 4), ("try_insert", 4), ("e_or_insert", 5), ("reserve", 2),
-            ("shrink_to", 3), ("shrink_to_fit", 1), ("clear", 1), ("extend", 2),
+            ("shrink_to", 3), ("shrink_to_fit", 1), ("clear", 1), ("extend", 2), ("from_iter", 1),
         ],
         "entry" => vec![
             ("insert", 12), ("remove", 20), ("get", 4),
@@ -139,7 +139,7 @@ pub fn mix_table(mix: &str) -> Vec<(&'static str, u32)> {
         "set" => vec![
             ("insert", 28), ("remove", 22), ("replace", 6), ("take", 6), ("get", 5), ("contains", 4),
             ("get_or_insert", 6), ("get_or_insert_with", 6), ("s_entry_insert", 3), ("s_entry_or_insert", 3),
-            ("s_entry_remove", 4), ("s_entry_get", 2), ("s_entry_into_value", 2), ("extend", 2), ("retain", 2),
+            ("s_entry_remove", 4), ("s_entry_get", 2), ("s_entry_into_value", 2), ("extend", 2), ("from_iter", 1), ("retain", 2),
             ("extract_if", 2), ("drain", 1), ("iter", 4), ("into_iter", 1), ("shrink_to_fit", 1), ("reserve", 1), ("iter_default", 1),
             ("shrink_to", 1), ("clear", 1),
         ],
@@ -261,7 +261,7 @@ impl OpGen {
                     ev.j = rng.random_range(0..3);
                 }
             }
-            "extend" => {
+            "extend" | "from_iter" => {
                 let n = rng.random_range(0..6);
                 for _ in 0..n {
                     ev.ks.push(rng.random_range(0..self.nkeys) as i64);
@@ -278,7 +278,11 @@ impl OpGen {
             }
             "drain" => {
                 ev.j = if rng.random_range(0..2) == 0 { -1 } else { rng.random_range(0..6) };
-                ev.n = if rng.random_range(0..8) == 0 { 1 } else { 0 };
+                ev.n = match rng.random_range(0..8) {
+                    0 => 1,     // the Drain is leaked
+                    1 | 2 => 2, // the rest is consumed by fold
+                    _ => 0,
+                };
             }
             "iter" => {
                 ev.n = rng.random_range(0..5);
